@@ -84,3 +84,13 @@ impl LogMessage {
 pub fn nz_panic<T>() -> (r: T)
     requires false
 { unimplemented!() }
+
+/// R9 target for `LogMessage::new_error(&format!("Removed duplicate of TID {}. ..", TID))`: some log message.
+#[verifier::external_body]
+pub fn verif_nz_log_dup(tid: &Tid) -> (r: LogMessage)
+{ unimplemented!() }
+
+/// R9 target for `LogMessage::new_info(format!(.., TIDS..))` in the non-returning-calls pass: some log message.
+#[verifier::external_body]
+pub fn verif_nz_log_info() -> (r: LogMessage)
+{ unimplemented!() }
